@@ -57,10 +57,14 @@ type frame struct {
 	guards []string
 	libErr bool // inside `if <lib error> != nil`
 	env    map[types.Object]val
+	// site: the position, in the step function itself, of the call through which a helper
+	// was entered; effects made inside helpers are attributed to it, so that a shared helper
+	// (`s.keywordFound(next)`) still gives every state its own effect sites
+	site token.Pos
 }
 
 func (f frame) with(set ByteSet, g string) frame {
-	n := frame{set: set, eff: append([]Effect(nil), f.eff...), may: f.may, guards: append([]string(nil), f.guards...), libErr: f.libErr, env: f.env}
+	n := frame{set: set, eff: append([]Effect(nil), f.eff...), may: f.may, guards: append([]string(nil), f.guards...), libErr: f.libErr, env: f.env, site: f.site}
 	if g != "" {
 		n.guards = append(n.guards, g)
 	}
@@ -574,7 +578,7 @@ func (m *Machine) call(call *ast.CallExpr, f frame, ctx *fnctx) []result {
 			if ev.v.k != vEvent {
 				m.problem(pos, "unsupported call statement %s", types.ExprString(call.Fun))
 			} else {
-				g.eff = append(g.eff, Effect{Kind: EEvent, Ev: ev.v.ev, Off: 0, Pos: pos})
+				g.eff = append(g.eff, Effect{Kind: EEvent, Ev: ev.v.ev, Off: 0, Pos: effPos(g, pos)})
 				m.Counts["event"]++
 			}
 			out = append(out, result{f: g, pos: pos})
@@ -588,7 +592,7 @@ func (m *Machine) call(call *ast.CallExpr, f frame, ctx *fnctx) []result {
 				if pv.v.k != vPos || ev.v.k != vEvent {
 					m.problem(pos, "unsupported call statement %s", types.ExprString(call.Fun))
 				} else {
-					g.eff = append(g.eff, Effect{Kind: EEvent, Ev: ev.v.ev, Off: pv.v.off, Pos: pos})
+					g.eff = append(g.eff, Effect{Kind: EEvent, Ev: ev.v.ev, Off: pv.v.off, Pos: effPos(g, pos)})
 					m.Counts["event"]++
 				}
 				out = append(out, result{f: g, pos: pos})
@@ -683,7 +687,18 @@ func (m *Machine) call(call *ast.CallExpr, f frame, ctx *fnctx) []result {
 		}
 		m.FuncsSeen[callee.Name()] = true
 		g := p.f.with(p.f.set, "→"+callee.Name())
-		out = append(out, m.activate(fd, recv, p.args, g, ctx.depth+1)...)
+		entered := false
+		if !isState && g.site == token.NoPos {
+			g.site = pos
+			entered = true
+		}
+		rs := m.activate(fd, recv, p.args, g, ctx.depth+1)
+		if entered {
+			for k := range rs {
+				rs[k].f.site = token.NoPos
+			}
+		}
+		out = append(out, rs...)
 	}
 	return out
 }
@@ -699,6 +714,14 @@ func lastGoto(f frame) (int, bool) {
 		}
 	}
 	return 0, false
+}
+
+// effPos: where an effect is attributed (see frame.site).
+func effPos(f frame, pos token.Pos) token.Pos {
+	if f.site != token.NoPos {
+		return f.site
+	}
+	return pos
 }
 
 func (m *Machine) opaqueResults(t types.Type) []val {
@@ -718,26 +741,54 @@ func (m *Machine) argsAreSC(call *ast.CallExpr, f frame, ctx *fnctx) bool {
 	return len(a) == 1 && len(b) == 1 && a[0].v.k == vScanner && b[0].v.k == vByte
 }
 
-// isOpaquePredicate: a bool method of the scanner without parameters that does not touch
-// the machine - its answer depends on the data, not on the control state.
+// isOpaquePredicate: a function or method of the package that returns one bool, takes neither
+// the input byte nor anything derived from it, and does not touch the machine (itself or
+// through what it calls): its answer depends on the data, not on the control state.
 func (m *Machine) isOpaquePredicate(callee *types.Func, call *ast.CallExpr, f frame) bool {
 	sig := callee.Type().(*types.Signature)
-	if sig.Recv() == nil || recvNamed(callee) != m.scannerT || sig.Params().Len() != 0 || sig.Results().Len() != 1 {
+	if sig.Results().Len() != 1 {
 		return false
 	}
 	b, ok := sig.Results().At(0).Type().Underlying().(*types.Basic)
 	if !ok || b.Kind() != types.Bool {
 		return false
 	}
-	sel, ok := ast.Unparen(call.Fun).(*ast.SelectorExpr)
-	if !ok {
+	if _, isPred := m.predSets[callee]; isPred {
 		return false
 	}
-	id, ok := ast.Unparen(sel.X).(*ast.Ident)
-	if !ok || f.env[m.Pkg.TypesInfo.ObjectOf(id)].k != vScanner {
+	for i := 0; i < sig.Params().Len(); i++ {
+		if isByte(sig.Params().At(i).Type()) {
+			return false
+		}
+	}
+	return m.isPureDeep(callee, 0)
+}
+
+// isPureDeep: neither the function nor anything of the package it calls writes a control
+// field of the scanner or emits/pushes/pops.
+func (m *Machine) isPureDeep(f *types.Func, depth int) bool {
+	if depth > 6 {
 		return false
 	}
-	return m.isPureMethod(callee)
+	if !m.isPureMethod(f) {
+		return false
+	}
+	fd := m.Prog.Decl(f)
+	if fd == nil {
+		return false
+	}
+	pure := true
+	ast.Inspect(fd.Body, func(n ast.Node) bool {
+		if call, ok := n.(*ast.CallExpr); ok {
+			if c := m.callee(call); c != nil && c != f && c.Pkg() == m.Pkg.Types && m.Prog.Decl(c) != nil {
+				if !m.isPureDeep(c, depth+1) {
+					pure = false
+				}
+			}
+		}
+		return pure
+	})
+	return pure
 }
 
 func (m *Machine) assign(s *ast.AssignStmt, f frame, ctx *fnctx) []frame {
